@@ -330,10 +330,13 @@ def check_graph(g, res=None):
             def visit(o, name):
                 key = (o._p_jar.db().database_name, o._p_oid)
                 if key in seen:
-                    if seen[key] is not o:
+                    if seen[key][0] is not o:
                         bad('iso', 'two-objects-for-one-oid', dict(node=name))
+                    elif seen[key][1] != name:
+                        bad('iso', 'edge-leads-to-another-node', dict(
+                            node=name, got=seen[key][1]))
                     return
-                seen[key] = o
+                seen[key] = (o, name)
                 want_oid = nodes[name]._p_oid
                 if o._p_oid != want_oid:
                     bad('iso', 'oid-differs', dict(
